@@ -101,7 +101,14 @@ func c09L7Round(m *vk.Monitor, r *rand.Rand, round int) {
 			open := func() {
 				cl, sv := net.Pipe()
 				pc = newPipelinedConn(&c09L7Conn{cl})
-				go c09L7Upstream(sv, func() time.Duration { return time.Duration(lr.IntN(300)) * time.Microsecond }, func(name string) {
+				// the upstream's goroutines draw from their own generator (lr belongs to the caller goroutine)
+				ur := rand.New(rand.NewPCG(lr.Uint64(), lr.Uint64()))
+				var urMu sync.Mutex
+				go c09L7Upstream(sv, func() time.Duration {
+					urMu.Lock()
+					defer urMu.Unlock()
+					return time.Duration(ur.IntN(300)) * time.Microsecond
+				}, func(name string) {
 					if f, ok := cancels.Load(name); ok {
 						f.(func())()
 					}
